@@ -251,8 +251,9 @@ def add_user_package(W, rng, dname, pkgname, sp, nfuncs, sid_prefix, test_file=F
     fnames = ["%s%d.go" % (dname, i) for i in range(nfiles)]
     if test_file:
         fnames.append("%s_test.go" % dname)
+    same_names = dname == "u" and "e" in W.pkgs
     for fn in fnames:
-        W.add_file(dname, fn, sp["imports"])
+        W.add_file(dname, fn, sp["imports"] + (['"%s/e"' % W.root] if same_names else []))
     stmts = site_statements(sp)
     q = sp["q"]
     # helpers through which a file WITHOUT imports reaches the declaring package
@@ -345,6 +346,13 @@ def add_user_package(W, rng, dname, pkgname, sp, nfuncs, sid_prefix, test_file=F
             if stats is not None:
                 stats["tags"][tag] = stats["tags"].get(tag, 0) + 1
             W.add(dname, rng.choice(fnames), Decl("pkglvl-" + sid, ["/*@%s:%s*/ " % (sid, tag) + line]))
+    if same_names:
+        # in every file: uses of e.Secret / e.H next to the uses of d's types of the same names (once-per-file reports are per
+        # (package, type), not per bare name)
+        for fi, fn in enumerate(fnames):
+            sid = "%s%se%d" % (W.wid, sid_prefix, fi)
+            W.add(dname, fn, Decl("samename-" + sid, ["/*@%sa:pkg-samename-secret*/ var %sE%da *e.Secret" % (sid, dname.capitalize(), fi),
+                                                      "/*@%sb:pkg-samename-h*/ var %sE%db e.H" % (sid, dname.capitalize(), fi)]))
     if sp.get("local_aliases"):
         f0 = fnames[0]
         for a, b in (("LT", "d.T"), ("LH", "d.H"), ("LSecret", "d.Secret"), ("LPT", "*d.T"), ("LPH", "*d.H")):
@@ -420,6 +428,11 @@ def full_world(rng, wid, modroot="w", stats=None, full_annotations=False, spelli
     for a, b in (("AT", "d.T"), ("AH", "d.H"), ("ASecret", "d.Secret"), ("PT", "*d.T"), ("PH", "*d.H")):
         W.add("m", "m.go", Decl(a, ["type %s = %s" % (a, b)]))
     W.add("m", "m.go", Decl("Anchor", ["const Anchor = 0"]))
+    W.add_pkg("e")
+    W.add_file("e", "e.go", [])
+    W.add("e", "e.go", Decl("Secret", ["type Secret struct{ W int }"], doc=["// Secret of e: another type of the same name.", "// @packageonly nobody"]))
+    W.add("e", "e.go", Decl("H", ["type H struct{ M int }"], doc=["// @testonly"]))
+    W.add("e", "e.go", Decl("Anchor", ["const Anchor = 0"]))
     drawn = rng.choice(["direct", "direct", "import-alias", "third-alias", "local-alias", "dot"])
     mode = spelling_mode or drawn
     sp = spelling(W, mode)
@@ -450,7 +463,8 @@ def near_miss(rng, line, stats=None):
         return [line]
     ind, kw, rest = m.group(1), m.group(2), m.group(3)
     kind = rng.choice(["mid-sentence", "capitalised", "upper", "longer-word", "block-comment", "split", "prefixed-word", "commented-out", "quoted", "double-slash", "triple-slash", "slash-blank-slash",
-                       "block-multiline", "block-multiline-tab", "othercase-then-lower", "uppercase-then-lower"])
+                       "block-multiline", "block-multiline-tab", "othercase-then-lower", "uppercase-then-lower",
+                       "foreign-tag-then-keyword", "deprecated-tag-then-keyword", "detached-banner"])
     if stats is not None:
         stats.setdefault("near_miss", {})
         stats["near_miss"][kind] = stats["near_miss"].get(kind, 0) + 1
@@ -473,6 +487,11 @@ def near_miss(rng, line, stats=None):
         # the keyword in another case where the grammar wants it, and in the right case only later in the line
         "othercase-then-lower": ind + "// @" + kw.capitalize() + rest + " was the old tag; \"@" + kw + rest + "\" is not used any more",
         "uppercase-then-lower": ind + "// @" + kw.upper() + rest + " (now spelled @" + kw + ")",
+        # a line that opens with another tool's @tag and mentions the keyword later
+        "foreign-tag-then-keyword": ind + "// @Description written as a @" + kw + rest + " helper for the tests",
+        "deprecated-tag-then-keyword": ind + "// @deprecated prefer the @" + kw + rest + " form",
+        # a free-standing banner that begins with the keyword, detached from the declaration by a blank line
+        "detached-banner": ind + "// @" + kw + rest + " and friends are the markers we may want here one day\n",
     }[kind]
     return out.split("\n")
 
@@ -547,7 +566,7 @@ def c14_world(rng, wid, modroot="w", stats=None):
 # ------------------------------------------------------------------------------------------------
 # rendering
 
-ANCHORS = {"unsafe": "Sizeof(0)", "d": "Free", "m": "Anchor", "p1": "Anchor", "p2": "Anchor", "api": "GetT", "a": "Anchor"}
+ANCHORS = {"unsafe": "Sizeof(0)", "e": "Anchor", "d": "Free", "m": "Anchor", "p1": "Anchor", "p2": "Anchor", "api": "GetT", "a": "Anchor"}
 
 
 def render(W, outdir, rng=None, layout=None, edit=None):
